@@ -9,7 +9,12 @@ VARIABLES scn, pc
 vars == <<scn, pc>>
 
 SeqsUpTo(S, n) == UNION {[1..k -> S] : k \in 0..n}
-Inputs == SeqsUpTo({SA, SB, SLF}, MaxLen)
+\* longer inputs for shapes that need them: chains of matches each beginning on the line where the previous one ended
+\* (\nb on \nb\nb\nb\n), an empty match followed on the same line by a match that runs into the next line
+SpecialInputs == { <<SLF, SB, SLF, SB, SLF, SB, SLF>>, <<SB, SLF, SB, SLF, SB, SLF, SB, SLF>>, <<SA, SLF, SB, SLF, SB, SLF, SB>>,
+                   <<SLF, SB, SLF, SB, SLF, SB, SLF, SB, SLF, SA>>, <<SA, SA, SA, SLF, SA>>, <<SA, SA, SA, SLF, SA, SLF, SB>>,
+                   <<SB, SA, SA, SLF, SA, SA, SLF, SA>> }
+Inputs == SeqsUpTo({SA, SB, SLF}, MaxLen) \cup SpecialInputs
 
 LF1 == ULit(SLF)
 Pats == { UCat(ULit(SA), UCat(LF1, ULit(SB))),                    \* a\nb
@@ -26,6 +31,8 @@ Pats == { UCat(ULit(SA), UCat(LF1, ULit(SB))),                    \* a\nb
           UCat(ULit(SB), UCat(URep(LF1, 1, Inf, TRUE), ULit(SA))),  \* b\n+a
           UCat(UWCls(TRUE), ULit(SA)),                              \* \Wa  (\W matches \n)
           UCat(ULit(SA), UCat(LF1, ULook("wb"))),                   \* a\n\b   (assertion looking at the next line's first byte)
+          UAlt(UCat(ULit(SA), UCat(LF1, ULit(SA))), ULook("nwb")),  \* a\na|\B   (an empty match, then a spanning one on the same line)
+          UAlt(ULook("nwb"), UCat(ULit(SA), UCat(LF1, ULit(SA)))),  \* \B|a\na
           ULit(SA), UCat(ULit(SA), ULit(SB)) }
 
 Opt(ci, word, line, crlf) == [ci |-> ci, smart |-> FALSE, word |-> word, line |-> line, crlf |-> crlf, nul |-> FALSE, inv |-> FALSE, dotall |-> FALSE]
